@@ -113,17 +113,20 @@ class LegacyDFXPWriter(BaseWriter):
             dfxp = self._recreate_styling_tag(
                 LEGACY_DFXP_DEFAULT_STYLE_ID, LEGACY_DFXP_DEFAULT_STYLE, dfxp)
 
-        # XXX For now we will always use this default region. In the future if
-        # regions are provided, they will be kept
-        dfxp = self._recreate_region_tag(
-            LEGACY_DFXP_DEFAULT_REGION_ID, LEGACY_DFXP_DEFAULT_REGION, dfxp)
-
         body = dfxp.find('body')
 
         if force:
             langs = [self._force_language(force, caption_set.get_languages())]
         else:
             langs = caption_set.get_languages()
+
+        # XXX For now we will always use this default region. In the future if
+        # regions are provided, they will be kept
+        # (it is only defined when a caption will refer to it)
+        if any(caption_set.get_captions(lang) for lang in langs):
+            dfxp = self._recreate_region_tag(
+                LEGACY_DFXP_DEFAULT_REGION_ID, LEGACY_DFXP_DEFAULT_REGION,
+                dfxp)
 
         for lang in langs:
             div = dfxp.new_tag('div')
